@@ -69,9 +69,9 @@ HARNESSES = [
          "B(input<=8, output<=32 bytes; complete otherwise)", "decode_huffman_code replaced by a contract model"),
         ("k_arm_code_lengths_hufflen", ["C03", "C04", "C05", "C07"], ["arm ReadHufflenTableCodeSize", "read_bits"],
          "B(input<=8, output<=32 bytes; complete otherwise)", "init_tree replaced by a contract model"),
-        ("k_decompress_fast_bounded_ring512", ["C03", "C04", "C05", "C08"], ["decompress_fast", "fill_bit_buffer", "InputWrapper::read_u32_le"],
+        ("k_decompress_fast_bounded_ring512", ["C03", "C04", "C05", "C07", "C08", "C19"], ["decompress_fast", "fill_bit_buffer", "InputWrapper::read_u32_le"],
          "B(at most 5 symbols before end-of-block, input<=18, output<=520 bytes incl. a 512-byte ring)", "HuffmanTable::lookup, apply_match, transfer replaced by contract models"),
-        ("k_decompress_fast_bounded", ["C03", "C04", "C05", "C08"], ["decompress_fast", "fill_bit_buffer", "InputWrapper::read_u32_le"],
+        ("k_decompress_fast_bounded", ["C03", "C04", "C05", "C07", "C08", "C19"], ["decompress_fast", "fill_bit_buffer", "InputWrapper::read_u32_le"],
          "B(at most 5 symbols before end-of-block, input<=18, output<=320 bytes)", "HuffmanTable::lookup, apply_match, transfer replaced by contract models"),
       )],
     # ---- K-capi ----
@@ -156,6 +156,8 @@ HARNESSES = [
     H("k_normal_rle_first_token", "K-normal-early", ["C01", "C02", "C10", "C12"], fns=["compress_normal (RLE branch: run detection against the previous byte, history guard)"], cost=80, timeout=900,
       strength="B(3 symbolic input bytes at window position 40000, one token decision; complete in input bytes, previous byte, flags with RLE set, window bits, dictionary size)",
       note="find_match / record_match / record_literal / flush_block replaced by contract models"),
+    H("k_find_match_chain", "K-findmatch", ["C01", "C10", "C11"], fns=["DictOxide::find_match", "DictOxide::read_unaligned_u64", "read_u16_le"], cost=60, timeout=900,
+      strength="B(one concrete window/hash-chain instance with three chain entries incl. a 65536-byte-old aliasing one; 8 concrete (incoming length, length limit) pairs; complete in probe budget, distance limit, incoming distance)"),
     # ---- K-huff ----
     H("k_enforce_max_code_size_kraft", "K-huff", ["C10"], fns=["HuffmanOxide::enforce_max_code_size"], cost=50, timeout=900,
       strength="B(<= 9 codes, tree depths <= 9, limit 7; complete over every depth histogram of a full binary tree in that range)"),
